@@ -20,10 +20,14 @@ const (
 	opInsertBefore
 	opDelete
 	opReplace
+	// opRepDel (duplicate checks only): h := Find(value at Pos); Replace(value at position V, that same value) - which can put an
+	// equal value EARLIER in the sequence; Delete(h). The handle was taken before the Replace (Replace moves no node),
+	// so Delete must remove exactly the node at Pos, not the first node holding an equal value.
+	opRepDel
 	nKinds
 )
 
-var opNames = []string{"Unshift", "Append", "Shift", "Pop", "InsertAfter", "InsertBefore", "Delete", "Replace"}
+var opNames = []string{"Unshift", "Append", "Shift", "Pop", "InsertAfter", "InsertBefore", "Delete", "Replace", "Find;Replace;Delete"}
 
 const (
 	initVal   = 1    // the element the list is created with
@@ -56,6 +60,9 @@ func (o Op) String() string {
 	v := ""
 	if o.V != 0 {
 		v = fmt.Sprintf("=%d", o.V)
+	}
+	if o.Kind == opRepDel {
+		return fmt.Sprintf("%s@%d<-@%d", opNames[o.Kind], o.Pos, o.V)
 	}
 	if o.Kind <= opPop {
 		return opNames[o.Kind] + v
@@ -115,7 +122,7 @@ func nextLen(n int, op Op) int {
 		if op.Pos != noPos {
 			return n + 1
 		}
-	case opShift, opPop, opDelete:
+	case opShift, opPop, opDelete, opRepDel:
 		if n > 1 {
 			return n - 1
 		}
@@ -167,9 +174,25 @@ func enumLenDup(thorough, dl bool) int {
 func enumCaseDup(s pbt.Src, thorough, dl bool) Case {
 	n := 1
 	return Case{Ops: pbt.Seq(s, 0, enumLenDup(thorough, dl), func(s pbt.Src) Op {
-		op := decode(s.Intn(alphabet(n, dl)), n, dl)
-		if insertsValue(op) || op.Kind == opReplace {
-			op.V = 1 + s.Intn(dupVals)
+		a := alphabet(n, dl)
+		extra := 0
+		if n >= 2 {
+			extra = n * (n - 1) // Find;Replace;Delete with target position p and source position q != p
+		}
+		i := s.Intn(a + extra)
+		var op Op
+		if i >= a {
+			i -= a
+			pp, q := i/(n-1), i%(n-1)
+			if q >= pp {
+				q++
+			}
+			op = Op{Kind: opRepDel, Pos: pp, V: q}
+		} else {
+			op = decode(i, n, dl)
+			if insertsValue(op) || op.Kind == opReplace {
+				op.V = 1 + s.Intn(dupVals)
+			}
 		}
 		n = nextLen(n, op)
 		return op
@@ -183,6 +206,9 @@ func genCaseDup(s pbt.Src, thorough, dl bool) Case {
 	for i := range c.Ops {
 		if s.Intn(8) != 0 {
 			c.Ops[i].V = 1 + s.Intn(nv)
+		}
+		if s.Intn(10) == 0 {
+			c.Ops[i] = Op{Kind: opRepDel, Pos: s.Intn(26), V: s.Intn(26)}
 		}
 	}
 	return c
@@ -497,11 +523,11 @@ func (x *run[N]) step(op Op, val int, tail bool) error {
 	if p < 0 {
 		p += n
 	}
-	if op.V > 0 {
+	if op.V > 0 && op.Kind != opRepDel {
 		val = op.V
 	}
 	// the handle of a value is the node of its first occurrence
-	if usesPos(op.Kind) && op.Pos != noPos || op.Kind == opDelete {
+	if usesPos(op.Kind) && op.Pos != noPos || op.Kind == opDelete || op.Kind == opRepDel {
 		for i, v := range x.model {
 			if v == x.model[p] {
 				if i != p {
@@ -595,6 +621,49 @@ func (x *run[N]) step(op Op, val int, tail bool) error {
 			headChange = p == 0
 			furtherEdit = p >= 1
 		}
+		callErr = guard(func() { opErr = x.a.del(h) })
+	case opRepDel:
+		if n < 2 {
+			d.kind = -1
+			x.hist = append(x.hist, d)
+			return nil
+		}
+		q := ((op.V % n) + n) % n
+		if q == p {
+			q = (p + 1) % n
+		}
+		for i, v := range x.model { // Replace acts on the first occurrence of the value at q
+			if v == x.model[q] {
+				q = i
+				break
+			}
+		}
+		target := x.model[p]
+		h, err := x.handle(target)
+		if err != nil {
+			return err
+		}
+		dr := done{kind: opReplace, at: x.model[q], val: target, tail: tail}
+		x.hist = append(x.hist, dr)
+		var rerr error
+		if e := guard(func() { rerr = x.a.replace(x.model[q], target) }); e != nil {
+			return x.fail("%v", e)
+		}
+		if rerr != nil {
+			return x.fail("unexpected error %q", rerr)
+		}
+		x.model[q] = target
+		if q < p {
+			x.label("Delete through a handle taken before an equal value appeared earlier in the sequence")
+			x.dupRef = true
+		}
+		// now delete the node found BEFORE the Replace: exactly the element at p (when q == p the Replace changed nothing)
+		returnsErr = true
+		d = done{kind: opDelete, at: target, tail: tail}
+		x.hist = append(x.hist, d)
+		x.model = removeAt(x.model, p)
+		headChange = p == 0
+		furtherEdit = p >= 1
 		callErr = guard(func() { opErr = x.a.del(h) })
 	case opReplace:
 		returnsErr = true
